@@ -59,6 +59,31 @@ def finalRight (d : Int) (right : Bool) : Bool := right != (d % 2 != 0)
 /-- direction of a traced segment in the returned path, read off its `resultWindings` -/
 def dirOfRW (rw : Int) : Int := if rw % 2 != 0 then 1 else -1
 
+
+/-! ### the guarded nesting walk (fix d8460b7)
+
+`for i := 0; prev != nil && skip(prev); i++ { prev = prev.prev; if i%2 == 1 { slow = slow.prev };
+if prev == slow { prev = nil } }` on an ACYCLIC chain, positions as list indices (distinct nodes ⇔
+distinct indices): `fast` and `slow` are the positions of the two pointers, `none` is nil. -/
+def walkGuarded (skip : TEnt → Bool) (chain : Array TEnt) : Nat → Nat → Nat → Nat → Option Nat
+  | 0, _, _, _ => none
+  | fuel + 1, i, fast, slow =>
+    if h : fast < chain.size then
+      if skip chain[fast] then
+        let fast' := fast + 1
+        let slow' := if i % 2 = 1 then slow + 1 else slow
+        if fast' = slow' then none else walkGuarded skip chain fuel (i + 1) fast' slow'
+      else some fast
+    else none
+
+/-- the walk without the guard: the first position that is not skipped -/
+def walkPlain (skip : TEnt → Bool) (chain : Array TEnt) : Nat → Nat → Option Nat
+  | 0, _ => none
+  | fuel + 1, fast =>
+    if h : fast < chain.size then
+      if skip chain[fast] then walkPlain skip chain fuel (fast + 1) else some fast
+    else none
+
 def entryCheck (r : Rule) (e : TEnt) (below : List TEnt) : Option String :=
   if e.seg.clipping then some "clipping"
   else if e.overlapped then
